@@ -753,8 +753,17 @@ def select_cases_c08():
     return [Case(f"{PROP}/sevm.Exec.select", c.case, c.harness, replay=c02.replay_select, sources=c.sources) for c in c02.select_cases()]
 
 
+def substitution_ownership_cases():
+    """the base slot of a storage location and the offset of a SHA3 are resolved through the path's table of learnt equalities
+    (Exec.int_of / mloc): `[k]` is only read as `[3]` on the path that assumed k == 3 if sibling paths own their tables (C02's unit)"""
+    from contracts import c02
+    from contracts.common import rewrap
+
+    return rewrap(PROP, c02.path_cases(), "location-substitution-owned", lambda c: "Path.branch" in c.unit)
+
+
 def build_cases(tier="quick"):
-    return select_cases_c08() + sha3_tracking_cases() + transient_vs_symbolic_cases() + solidity_cases() + generic_cases() + sevm_cases() + offsetmap_cases() + empty_hash_cases()
+    return substitution_ownership_cases() + select_cases_c08() + sha3_tracking_cases() + transient_vs_symbolic_cases() + solidity_cases() + generic_cases() + sevm_cases() + offsetmap_cases() + empty_hash_cases()
 
 
 def grounds():
